@@ -112,6 +112,17 @@ def do_query(db, feats, q):
             got = db.region(seqid=seqid, start=a, end=b, strand=strand, **kw)
         elif kind == "region_str":
             got = db.region("%s:%d-%d" % (seqid, a, b), strand=strand, **kw)
+        elif kind == "region_str_strand":
+            # 'seqid:start-end:strand' - the strand travels inside the string
+            got = db.region("%s:%d-%d%s" % (seqid, a, b, ":" + strand if strand else ""), **kw)
+        elif kind == "region_seqid_only":
+            # a bare 'seqid' string: no position clause at all, every feature of the sequence (also '.' coordinates)
+            got = sorted(f.id for f in db.region(seqid, strand=strand, **kw))
+            want = sorted(f["id"] for f in feats if f["seqid"] == seqid and (strand is None or f["strand"] == strand)
+                          and (fts is None or f["ftype"] in fts))
+            cmd = "region %s ~ ~ %s %s %s" % (enc(seqid), "~" if strand is None else enc(strand),
+                                              "~" if fts is None else enc_list(fts), "1" if within else "0")
+            return got, want, cmd
         elif kind == "region_feature":
             fstrand = strand or "+"
             got = db.region(Feature(seqid=seqid, start=a, end=b, strand=fstrand), **kw)
@@ -293,7 +304,8 @@ def run(ctx):
             within = r.random() < 0.5
             strand = r.choice([None, None, "+", "-"])
             ft = r.choice([None, None, "exon", ["exon", "CDS"], ["gene"]])
-            kind = r.choice(["region_tuple", "region_kw", "region_str", "region_feature", "region_noseqid", "one_sided",
+            kind = r.choice(["region_tuple", "region_kw", "region_str", "region_str_strand", "region_seqid_only",
+                             "region_feature", "region_noseqid", "one_sided",
                              "limit_all", "limit_all_str", "limit_type", "limit_children", "limit_parents"])
             inp = {"lines": lines, "query": kind, "seqid": seqid, "start": a, "end": b, "completely_within": within,
                    "strand": strand, "featuretype": ft}
